@@ -491,6 +491,12 @@ ROUND3 = {
 for _k, _v in ROUND3.items():
     CLAIMS[_k]["text"] += _v
 ROUND4 = {
+    'C06': " Third part: every code object of the standard library's top-level modules (quick: 48 sampled files; thorough: all, ~8000 code objects) against the same oracles (single entry/exit, reachability, post-dominator CDG, root dependence).",
+    'C08': " Markers are also placed in the wide-spaced spellings the patterns allow.",
+    'C19': " The export check also runs the forward and backward statement minimizers (constant coverage function) before the export, including a five-statement chain whose last statement carries the oracle.",
+    'C21': " Bounded addition: 40000 (300000) seeded kill maps with 2-6 assertions over 8 mutants against the contract of _select_minimal_assertions (for changes that take the function out of the verifier's subset).",
+    'C22': " The restore branch of _minimize is exercised with a combined visitor that removes one more statement in place after its real run: the returned suite must have the original coverage.",
+    'C27': " Ignore lists: none, one function, a proper prefix of function names, two functions, names of other modules (thorough: six random ones); an ignored function must not be under test, nothing else may be dropped.",
     'C01': " The first part also runs with no coverage metric at all (dynamic seeding only), and the vectors include a str subclass whose __len__ prints.",
     'C25': " The type universe includes the tuple of unknown size, 3-tuples and tuple[Any].",
     'C26': " The subject module has generators and parameters for 2-tuples that agree in one position only, 3-tuples and the plain tuple.",
@@ -498,7 +504,7 @@ ROUND4 = {
     'C30': " One test case closes descriptor 0; descriptors 0-2 are compared by (device, inode), not only by openness.",
     'C32': " Also: two non-terminating test cases in a row (the first sleeping in slices of 0.52-0.95 s so that its abandoned thread wakes up during the second); both must be reported as time-outs with empty results.",
     'C03': " The covered verdicts are read twice: from the zero distances of the trace and through every BranchGoal of the real BranchGoalPool (is_covered); both must equal the interpreter's outcomes. The vectors include floats closer than one machine epsilon and denormals.",
-    'C29': " The operation list of the bounded part includes compound operations (directory + file + rename of a scratch file onto its final name; nested makedirs; several temporaries renamed in turn), so that recorded paths have disappeared again before the isolation exits.",
+    'C29': " The operation list of the bounded part includes compound operations (directory + file + rename of a scratch file onto its final name; nested makedirs; several temporaries renamed in turn), so that recorded paths have disappeared again before the isolation exits, and os.open with O_TRUNC / O_CREAT / O_APPEND under every access mode.",
 }
 for _k, _v in ROUND4.items():
     CLAIMS[_k]["text"] += _v
